@@ -11,6 +11,7 @@ import (
 	"bytes"
 	"fmt"
 	"net/netip"
+	"os"
 	"strings"
 	"time"
 
@@ -106,6 +107,13 @@ func nsRunHistory(rt *rapid.T, s *nsSim, o nsHistOpts) *nsHist {
 		if r := recover(); r != nil {
 			// attach world and history so the failure is readable, then re-panic for rapid
 			fmt.Printf("---- netsim world: %s\n---- netsim history (%d steps) ----\n%s\n", w.describe(), len(h.steps), strings.Join(h.steps, "\n"))
+			if os.Getenv("VERIF_NS_LOGS") != "" {
+				for _, n := range w.nodes {
+					if n != nil {
+						fmt.Printf("---- log of %s ----\n%s\n", n.name, n.logBuf.String())
+					}
+				}
+			}
 			panic(r)
 		}
 	}()
@@ -300,8 +308,9 @@ func nsDeliverUnauth(rt *rapid.T, h *nsHist, p *nsPacket, from, to netip.AddrPor
 	if h.o != nil && h.o.preDeliver != nil {
 		h.o.preDeliver(rt, h.w, h, cp, from, x)
 	}
-	s.deliver(cp)
-	if h.o != nil && h.o.postDeliver != nil {
+	reached := s.deliver(cp)
+	if reached && h.o != nil && h.o.postDeliver != nil {
+		// (a datagram lost to a blocked path never reached the node: nothing to judge)
 		h.o.postDeliver(rt, h.w, h, cp, from, x)
 	}
 	if genuine && !alreadyConsumed && okh && nsConsumed(x, hd) {
